@@ -130,12 +130,14 @@ def ambig_programs():
     return out
 
 
-def case_programs():
-    """clause sets for case / greedy case (drives the merge contracts)"""
+def case_programs(empty_bodies=False):
+    """clause sets for case / greedy case (drives the merge contracts and the clause-selection reference).
+    Clause bodies are `n = [k]; "!";` (marker scheduled on the way out of the case); with empty_bodies=True just `n = [k];`."""
     import itertools
     pats = ['"a"', '"ab"', '"abc"', '"Ab"i', '/a+/', '/a*b/', '/[ab]+/', '/[bc]/', '/[^a]/', '/./', '/ab?/', '/\\w+/', '/\\d+/', '"if"', '"in"', '"int"', '/[a-z]+/', 'end', 'b/61 62?/']
     out = []
     k = 0
+    tail = "" if empty_bodies else '"!";'
     for n in (2, 3):
         for combo in itertools.combinations(pats, n):
             if n == 3 and k % 7:
@@ -145,11 +147,14 @@ def case_programs():
                 cls = []
                 for i, pth in enumerate(combo):
                     pre = f"prio {i} " if greedy and (k + i) % 3 == 0 else ""
-                    cls.append(f"{pre}{pth} -> {{ n = [{i + 1}]; }}")
+                    cls.append(f"{pre}{pth} -> {{ n = [{i + 1}]; {tail} }}")
+                if k % 5 == 0 and n == 2:
+                    # several patterns in one clause
+                    cls = [f"{combo[0]}, {combo[1]} -> {{ n = [1]; {tail} }}", '"zz" -> { n = [2]; ' + tail + ' }']
                 if k % 2:
-                    cls.append("else -> { n = [9]; }")
+                    cls.append("else -> { n = [9]; " + tail + " }")
                 src = DECLS + "parser { " + ("greedy " if greedy else "") + "case { " + " ".join(cls) + ' } ";"; }\n'
-                out.append({"name": f"case/{k}{'g' if greedy else ''}", "src": src, "args": ["-feof-support", "-fyield-support"], "path": None})
+                out.append({"name": f"case{'E' if empty_bodies else ''}/{k}{'g' if greedy else ''}", "src": src, "args": ["-feof-support", "-fyield-support"], "path": None})
             k += 1
     return out
 
